@@ -178,7 +178,7 @@ Prods == [
              <<"base", ".", "bool">>, <<"base", ".", "status">>, <<"base", ".", "io_reader">>,
              <<"array", "[", "Num", "]", "Type">>, <<"slice", "Type">>, <<"roslice", "Type">>,
              <<"table", "Type">>, <<"roarray", "[", "Num", "]", "Type">>, <<"ptr", "foo">>, <<"nptr", "foo">>,
-             <<"foo">>, <<"base", ".", "range_ii_u32">> },
+             <<"foo">>, <<"bar">>, <<"baz">>, <<"base", ".", "range_ii_u32">> },
   NumT |-> { <<n>> : n \in NumTypes },
   \* ----------------------------------------------------------- declarations
   File |-> { <<>>, <<"Decl", ";", "File">> },
@@ -354,7 +354,17 @@ Prefix ==
       [] Ctx = "decls" -> CtxDecls
       [] Ctx = "const" -> <<"pri", "const", "KK", ":", "base", ".", "u32", "=">>
       [] Ctx = "field" -> <<"pri", "struct", "bar", "(", "f", ":">>
+      \* a field of a classy struct, with the context's declarations (so that the struct type foo exists), in
+      \* the first and in the "+" section
+      [] Ctx = "fieldq" -> CtxDecls \o <<"pub", "struct", "bar", "?", "(", "f", ":">>
+      [] Ctx = "fieldx" -> CtxDecls \o <<"pub", "struct", "bar", "?", "(", "m", ":", "base", ".", "u32", ",", ")", "+", "(", "f", ":">>
+      \* ... and a "+" field of struct bar that may name bar itself (a cycle) or baz, a struct declared LATER in the file
+      [] Ctx = "fieldfwd" -> CtxDecls \o <<"pub", "struct", "bar", "?", "(", "m", ":", "base", ".", "u32", ",", ")", "+", "(", "f", ":">>
       [] Ctx = "var"   -> <<"pri", "func", "f", "(", ")", "{", "var", "v", ":">>
+      \* inside the inner loop of the SECOND of two sequential loops that share the label lbl (the first one has a
+      \* deep break): jumps derived here meet a label that was already used in this function
+      [] Ctx = "inloop2" -> BodyE \o <<"while", ".", "lbl", "true", "{", "while", "true", "{", "break", ".", "lbl", ";", "}", ";", "}", ".", "lbl", ";",
+                                       "while", ".", "lbl", "x", "<", "y", "{", "while", "t", "{">>
 
 Suffix ==
     CASE Ctx \in {"bodyq", "bodye"} -> <<"}", ";">>
@@ -364,12 +374,14 @@ Suffix ==
       [] Ctx = "struct" -> <<")", ";">>
       [] Ctx \in {"top", "decls"} -> <<>>
       [] Ctx = "const" -> <<";">>
-      [] Ctx = "field" -> <<",", ")", ";">>
+      [] Ctx \in {"field", "fieldq", "fieldx"} -> <<",", ")", ";">>
+      [] Ctx = "fieldfwd" -> <<",", ")", ";", "pub", "struct", "baz", "?", "(", "q", ":", "base", ".", "u32", ",", ")", ";">>
       [] Ctx = "var"   -> <<";", "}", ";">>
+      [] Ctx = "inloop2" -> <<";", "}", ";", "}", ".", "lbl", ";", "}", ";">>
 
 \* In a body context the derived part is a statement list: a derived single
 \* statement gets its terminating ";".
-Glue == IF Ctx \in {"bodyq", "bodye", "bodyp", "bodyr"} /\ Start = "Stmt" THEN <<";">> ELSE <<>>
+Glue == IF Ctx \in {"bodyq", "bodye", "bodyp", "bodyr"} /\ Start = "Stmt" THEN <<";">> ELSE <<>>   \* ("inloop2": the suffix starts with ";")
 
 Tokens(f) == Prefix \o f \o Glue \o Suffix
 
